@@ -57,6 +57,13 @@ def answerOf (a : Agent) (ev : Ev) : Option (Pending × Nat) :=
           else none
     else none
 
+/-- a response to a renomination with value `v` is superseded when a response to one with a value `≥ v` has been
+processed (`controllingSelector.answeredNomination`) -/
+def supersededBy (answered : Option Nat) (v : Nat) : Bool :=
+  match answered with
+  | none => false
+  | some w => decide (v ≤ w)
+
 /-- the nomination value the controlled selector accepts at this step, with the local address the request arrived on
 and its source address as seen by the agent -/
 def acceptAt (a : Agent) (ev : Ev) : Option (Nat × Nat × Nat) :=
